@@ -39,7 +39,8 @@ def kcenters_units():
         for cfg in ('both', 'n', 'd', 'inf'):
             reg = CC.registry_kcenters(cfg, start)
             u = Unit('kcenters[%s,%s]' % (cfg, start), reg, keys=[CC.KC + 'kcenters'], axioms=CC.axioms,
-                     mutants=MUT_LOOP if (cfg, start) == ('both', 'cold') else [])
+                     mutants=MUT_LOOP if (cfg, start) == ('both', 'cold') else [],
+                     budget=20 if start == 'warm' else None)     # the warm-start history obligations need ~4 s of instantiation on an idle machine
             u.cfg, u.start = cfg, start
             out.append(u)
     return out
